@@ -68,6 +68,44 @@ def run(plan):
             return None
         return proto
 
+    async def do_burst(w):
+        """Several requests written back to back while the socket is under back pressure (the transport keeps a
+        reference to each buffer until it is flushed), then the responses are read."""
+        proto = await proto_session(w)
+        if proto is None:
+            return
+        w.net.backpressure = plan.get("bp", 1 / 4096)
+        w.fire("backpressure")
+        payloads = [det_bytes(f"burst{plan['seed']}:{i}:{n}", n) for i, n in enumerate(plan["burst"])]
+        reply_state["payload"] = b"ok"
+        k0 = len(seen)
+        for pl in payloads:
+            try:
+                proto.write(pl)
+            except Exception as e:
+                res.fail(f"write raised {type(e).__name__}", repr(e))
+                return
+        await asyncio.sleep(0.01)
+        nbad = [v for v in dev.violations]
+        if len(seen) - k0 != len(payloads):
+            res.fail("encrypted request rejected by the independent decoder",
+                     f"burst {plan['burst']}: {len(seen) - k0} of {len(payloads)} decoded; {nbad[:1]}")
+            return
+        prev = None
+        for d, pl in zip(seen[k0:], payloads):
+            if d["payload"] != pl:
+                res.fail("request payload not recovered identically", f"burst {plan['burst']}")
+                return
+            if prev is not None and d["counter"] != (prev + 1) % 4096 and d["counter"] != prev + 1:
+                res.fail("request counter is not previous+1", f"{prev} -> {d['counter']}")
+                return
+            prev = d["counter"]
+        for _ in payloads:
+            got = await proto.read()
+            if got != b"ok":
+                res.fail("response payload not decoded identically", "burst")
+                return
+
     async def do_lengths(w):
         proto = await proto_session(w)
         if proto is None:
@@ -207,7 +245,7 @@ def run(plan):
             res.fail(f"tampered response raised {o.exc_type} at LAN level instead of ProtocolError",
                      f"bit={plan['bit']} {o.exc!r}")
 
-    main = {"lengths": do_lengths, "counter": do_counter, "tamper_proto": do_tamper_proto,
+    main = {"lengths": do_lengths, "burst": do_burst, "counter": do_counter, "tamper_proto": do_tamper_proto,
             "tamper_lan": do_tamper_lan}[mode]
     try:
         w.run(main)
@@ -215,7 +253,8 @@ def run(plan):
         res.fail(f"liveness: {type(e).__name__}", str(e))
     res.take(w)
     res.add_fired(dev.fired)
-    res.key = (mode, plan.get("seed"), repr(plan.get("pairs", plan.get("bit"))), plan.get("m"), plan.get("count"))
+    res.key = (mode, plan.get("seed"), repr(plan.get("pairs", plan.get("bit"))), plan.get("m"), plan.get("count"),
+               repr(plan.get("burst")))
     res.nontrivial = True
     return res
 
@@ -253,6 +292,13 @@ def space(tier):
     def tamper_lan(j, rng):
         return {"mode": "tamper_lan", "config": {"version": 3}, "m": lan_m, "bit": j, "seed": 5}
     sp.add("tamper_lan", nbits, tamper_lan, exhaustive=True)
+
+    def burst(j, rng):
+        n = rng.randint(2, 6)
+        return {"mode": "burst", "config": {"version": 3, "key": rand_bytes(rng, 32).hex(), "token": rand_bytes(rng, 64).hex()},
+                "burst": [rng.choice([0, 1, 13, 14, 15, 30, 62, 104, rng.randint(0, 300)]) for _ in range(n)],
+                "bp": rng.choice([1 / 4096, 1 / 1024])}
+    sp.add("burst_under_backpressure", 1500 if tier == "quick" else 60_000, burst)
 
     def counter(j, rng):
         return {"mode": "counter", "config": {"version": 3, "key": rand_bytes(rng, 32).hex()},
